@@ -31,6 +31,12 @@ type ACLCase struct {
 	// from this call on (1-based; 0 = never) the audit device is failing: whatever that does to
 	// calls that are allowed, a call without a grant still reveals and changes nothing
 	AuditDownFrom int `json:"audit_down_from,omitempty"`
+	// HTTP only: the restricted callers reach the server from the loopback interface (a local proxy in
+	// front of it), and every request carries forwarding headers that name the superuser's address
+	Loopback bool `json:"loopback,omitempty"`
+	// HTTP only: during these calls (0-based) the identity lookup fails - the local tailscaled is away.
+	// Nobody can be identified, so nothing is revealed or changed, whoever asked a moment ago.
+	WhoisDown []int `json:"whois_down,omitempty"`
 }
 
 var c01Names = []string{"a", "b", "dev/a", "dev/b", "prod/a", "a*", "a\nb", "_internal/x", "", "a", "dev/a", "a ", " dev/a", "_internal", "prod/b|a", "b|a",
@@ -58,7 +64,7 @@ func genRuleSet(rt *rapid.T) []model.Rule {
 	return rapid.SliceOfN(rapid.Custom(func(rt *rapid.T) model.Rule {
 		return model.Rule{
 			Action: rapid.SliceOfN(rapid.SampledFrom(c01Actions), 0, 4).Draw(rt, "actions"),
-			Secret: rapid.SliceOfN(rapid.OneOf(rapid.SampledFrom(c01Patterns), rapid.SampledFrom(c01Patterns), rapid.SampledFrom(c01Names), rapid.SampledFrom(c01Names), rapid.Custom(genFamilyPattern)), 1, 3).Draw(rt, "patterns"),
+			Secret: rapid.SliceOfN(rapid.OneOf(rapid.SampledFrom(c01Patterns), rapid.SampledFrom(c01Patterns), rapid.SampledFrom(c01Names), rapid.SampledFrom(c01Names), rapid.Custom(genFamilyPattern)), rapid.SampledFrom([]int{0, 1, 1, 1, 1, 1, 1, 1}).Draw(rt, "min-patterns"), 3).Draw(rt, "patterns"),
 		}
 	}), 0, 3).Draw(rt, "rules")
 }
@@ -77,6 +83,12 @@ func genACLCase(rt *rapid.T) ACLCase {
 	}
 	if rapid.IntRange(0, 4).Draw(rt, "auditdown") == 0 {
 		c.AuditDownFrom = rapid.IntRange(1, 12).Draw(rt, "auditdownfrom")
+	}
+	if c.HTTP {
+		c.Loopback = rapid.IntRange(0, 2).Draw(rt, "loopback") == 0
+		if rapid.IntRange(0, 2).Draw(rt, "whoisdown") == 0 {
+			c.WhoisDown = rapid.SliceOfN(rapid.IntRange(1, 24), 1, 4).Draw(rt, "whoisdownat")
+		}
 	}
 	kinds := c01Kinds
 	if len(c.Others) > 0 {
@@ -157,6 +169,12 @@ func runC01(t *testing.T, c ACLCase) (*h.Violation, h.Info) {
 	if len(c.Others) > 0 {
 		info.Class(fmt.Sprintf("restricted-callers-%d", 1+len(c.Others)))
 	}
+	if c.HTTP && c.Loopback {
+		for i := 1; i < len(callers); i++ {
+			callers[i].IP = fmt.Sprintf("127.0.0.%d", i)
+		}
+		info.Class("restricted-callers-on-the-loopback-interface")
+	}
 	keep := &dbx.Retained{}
 	var tgt, twinTgt dbx.Target = dbx.DBTarget{D: d, Keep: keep}, dbx.DBTarget{D: twin}
 	var ht, htTwin *dbx.HTTPTarget
@@ -170,6 +188,10 @@ func runC01(t *testing.T, c ACLCase) (*h.Violation, h.Info) {
 		htTwin, _ = dbx.NewHTTP(twin, callers)
 		tgt, twinTgt = ht, htTwin
 		tr.Wire = true
+		if c.Loopback {
+			fwd := map[string]string{"X-Forwarded-For": su.IP, "X-Real-Ip": su.IP, "Forwarded": "for=" + su.IP}
+			ht.Headers, htTwin.Headers = fwd, fwd
+		}
 	} else {
 		info.Class("path-db")
 	}
@@ -222,6 +244,29 @@ func runC01(t *testing.T, c ACLCase) (*h.Violation, h.Info) {
 				return h.V("denied-call-changes-nothing", "step %d %s by caller %d (outcome %s, model %s) while the audit device is failing: %v %s", i, op, op.Caller, got, want, err, dbx.DumpDiff(dump, tr.M)), info
 			}
 			continue
+		}
+		if c.HTTP {
+			down := false
+			for _, k := range c.WhoisDown {
+				down = down || k == i
+			}
+			if down {
+				ht.WhoIsDown.Store(true)
+				got := tgt.Do(low, op, ver)
+				ht.WhoIsDown.Store(false)
+				info.Class("identity-lookup-failed-during-a-call")
+				if got.Class == model.OK || got.HasVal || got.Info != nil || len(got.List) > 0 {
+					return h.V("refused-without-grant", "step %d %s by caller %d while the identity lookup fails (nobody can be identified, whatever was known about that address a moment ago): %s", i, op, op.Caller, got), info
+				}
+				d2, err := dbx.OpenDiscard(filepath.Join(dir, "db"), dbx.DummyKey())
+				if err != nil {
+					return h.V("harness", "reopen: %v", err), info
+				}
+				if dump, err := dbx.Dump(d2); err != nil || dbx.DumpDiff(dump, tr.M) != "" {
+					return h.V("denied-call-changes-nothing", "step %d %s by caller %d while the identity lookup fails: %v %s", i, op, op.Caller, err, dbx.DumpDiff(dump, tr.M)), info
+				}
+				continue
+			}
 		}
 		existed := tr.M[op.Name] != nil
 		before := tr.M.String()
